@@ -256,6 +256,20 @@ def _member(v):
     return None
 
 
+def _member_wrong(v):
+    """text when v is *recognisably not* a membership vector although it is built from a word/mask combination compared with a constant:
+    the inverted test `(w & m) == 0`, or `|` / `^` in place of `&`; None when it is a membership test or a form the rules do not know"""
+    for op in ("NotEq", "Eq"):
+        a = app(v, "cmp:" + op)
+        if a and len(a) == 2:
+            for x, z in ((a[0], a[1]), (a[1], a[0])):
+                if const_of(z) == 0:
+                    h = head(x) or ""
+                    if h.startswith("mask:") and (op == "Eq" or h != "mask:BitAnd"):
+                        return f"{h[5:]} ... {op} 0"
+    return None
+
+
 def _first(paths, pred):
     for p in paths:
         if pred(p):
@@ -441,6 +455,16 @@ def r2_mksetpv(ctx):
         info.append((p, A, B, mA, mB))
         shape_ok = shape_ok and mA is not None and mB is not None
     bad = _first(info, lambda t: t[3] is None or t[4] is None)
+    if bad is not None:
+        # a violation when the value returned is not a selection X[Y] of vectors at all, or a vector is recognisably not a membership test;
+        # a selection of two boolean vectors computed in a way the rule does not know is an analysis error
+        A, B = bad[1], bad[2]
+        kinds = ["none" if x is None else ("member" if _member(x) is not None else ("wrong" if _member_wrong(x) else
+                 ("odd" if depends_on_sym(x, args[0]) else "unrelated"))) for x in (A, B)]
+        if "odd" in kinds and not ({"none", "wrong", "unrelated"} & set(kinds)):
+            ctx.error("mksetpv: how the membership vectors are computed is not recognised (rule knows (word & mask) != 0, .astype(bool) and the "
+                      "ufunc spellings)", bad[0].ret_node, {"returned": _show(bad[0].ret), "regime": bad[0].describe()})
+            return
     if not ctx.check(shape_ok, "mksetpv computes both membership vectors as (word & mask) != 0", bad[0].ret_node if bad else fn,
                      None if shape_ok else {"returned": _show(bad[0].ret), "regime": bad[0].describe()}):
         return
@@ -946,6 +970,7 @@ def _r3_mkdofpv(ctx):
     kN = ks.pop() if len(ks) == 1 else None
     okN = kN is not None and kN > 6          # components 0..6 must not run into the id
     okH = True
+    enc_odd = None if kN is not None or len(ks) > 1 else "requested keys: " + _show(rows[0][1].N)       # not of the form id*k + component at all
     part_ok, part_seen, part_bad, part_odd = True, False, None, None
     uset = F.sym(fn.args.args[0].arg)
     nasset = fn.args.args[1].arg
@@ -955,6 +980,8 @@ def _r3_mkdofpv(ctx):
         if tab:
             U = app(tab[0], "idx")[0]
             good = kN is not None and same(H, _col(U, 0) * kN + _col(U, 1))
+            if not good and kN is not None and mult(H, U) is None:
+                enc_odd = enc_odd or "table keys: " + _show(H)
             # a plain array table has no set information: its rows are the p-set, any other request is refused
             if not (same(U, uset) and p.decided(F.fn("cmp:Eq", F.sym(nasset), F.sym("'p'"))) is True):
                 part_ok, part_bad = False, (p, U)
@@ -963,6 +990,8 @@ def _r3_mkdofpv(ctx):
             ids = [x for x in lv if sym_of(_is_call(x, ("get_level_values",), ["self", "level"])["level"]) == "'id'"]
             dfs = [x for x in lv if sym_of(_is_call(x, ("get_level_values",), ["self", "level"])["level"]) == "'dof'"]
             good = len(ids) == 1 and len(dfs) == 1 and kN is not None and same(H, ids[0] * kN + dfs[0])
+            if not good and kN is not None and not (len(ids) == 1 and len(dfs) == 1 and const_of((H - dfs[0]) / ids[0]) is not None):
+                enc_odd = enc_odd or "table keys: " + _show(H)
             U = None
             if good:
                 i1 = _is_call(ids[0], ("get_level_values",), ["self", "level"])["self"]
@@ -987,6 +1016,11 @@ def _r3_mkdofpv(ctx):
                 else:
                     part_odd = (p, U)
         okH = okH and good
+    if enc_odd is not None:
+        # a violation only when both sides are id*k + component with different / too small k; another way of packing (id, component) into one
+        # key is something this rule cannot judge
+        ctx.error("mkdofpv: how (id, component) pairs are packed into search keys is not recognised (rule knows id*k + component)", fn, enc_odd)
+        return bound
     ctx.check(okN and okH, "mkdofpv: table keys and requested keys are the same encoding id*k + component (k = 10 > 6 on both sides)", fn,
               None if okN and okH else {"requested": _show(rows[0][1].N), "table": _show(rows[0][1].H)})
     if not okH:
@@ -1325,10 +1359,13 @@ def r4_expanddof(ctx):
     good = bool(ids)
     det = None
     seen = set()
+    odd = None
     for p, k, v in ids:
         X, R = _cross_rows(v)
         ok = sym_of(strip(X)) == dofp
         go = p.decided(F.sym(gop))
+        if _range_of(R) is None:
+            odd = odd or (p, R)         # the component list is not a constant range: nothing this rule can compare
         for g in (True, False):
             if go is not None and go != g:
                 continue
@@ -1336,7 +1373,11 @@ def r4_expanddof(ctx):
             if not (ok and _range_of(R) == ((1, 7) if g else (0, 7))):
                 good = False
                 det = det or {"regime": p.describe(), "grids_only": g, "returned": _show(v)}
-    ctx.check(good and seen == {True, False}, "expanddof: 1-D input expands to components 1..6 (grids_only) or 0..6", fn, det)
+    if odd is not None:
+        ctx.error("expanddof: the component list of the id expansion is not recognised (rule knows range / np.arange with constant bounds)",
+                  odd[0].ret_node, {"regime": odd[0].describe(), "components": _show(odd[1])})
+    else:
+        ctx.check(good and seen == {True, False}, "expanddof: 1-D input expands to components 1..6 (grids_only) or 0..6", fn, det)
 
 
 def r5_index2slice(ctx):
